@@ -88,7 +88,7 @@ def base_scenarios(tier, seed, hints=False):
                     d = ['partial', 'distractors', 'second'][pi % 3]
                     scs.append(dict(cell=ci, pat=pn, pose=pi, place=placesB[pi % 2], decoy=d, atol=0.05, noise=1))
             for pi in (range(np_ - 2, np_) if q else range(0, np_, 3)):
-                for at, nz in ((0.01, 0), (0.2, 0), (0.2, 1)) + (() if q else ((0.05, 1), (0.01, 1))):
+                for at, nz in ((0.01, 0), (0.2, 0), (0.2, 1), (0.001, 0)) + (() if q else ((0.05, 1), (0.01, 1))):
                     for di, d in enumerate(['nearmiss', 'mirror'] if q else ['nearmiss', 'mirror', 'second', 'distractors']):
                         scs.append(dict(cell=ci, pat=pn, pose=pi, place=placesB[(pi + di) % len(placesB)], decoy=d, atol=at, noise=nz))
     lay = range(2) if q else range(len(LAYOUTS))
@@ -120,7 +120,7 @@ def draw_bound(tier):
 
 def menus(tier, seed):
     return dict(cells=[c[0] for c in G.CELLS], patterns=G.PATTERN_NAMES, poses=[p[0] for p in pose_menu(tier, seed)], placements=[list(p) for p in G.PLACEMENTS],
-                decoys=G.DECOYS, atol_noise=[[0.05, 0], [0.05, 1], [0.01, 0], [0.2, 0]], layouts=len(LAYOUTS), random_vectors=2 if tier == 'quick' else 4,
+                decoys=G.DECOYS, atol_noise=[[0.05, 0], [0.05, 1], [0.01, 0], [0.2, 0], [0.2, 1], [0.001, 0]], layouts=len(LAYOUTS), random_vectors=2 if tier == 'quick' else 4,
                 draws='every answer of random.choice and np.random.random within the deviation bound')
 
 
